@@ -438,7 +438,9 @@ func (e *kvElection) becomeLeader(token string, rev uint64) bool {
 		e.validationLoop(ctx)
 	}()
 
-	if e.onPromote != nil {
+	// Copy the callback while the mutex is held: OnPromote() may replace it
+	// concurrently, and the goroutine below runs after the mutex is released.
+	if onPromote := e.onPromote; onPromote != nil {
 		log.Info("leader_promoted",
 			append(e.logWithContext(e.ctx),
 				zap.String("token", token),
@@ -459,7 +461,7 @@ func (e *kvElection) becomeLeader(token string, rev uint64) bool {
 			}()
 			promoteCtx, cancel := context.WithCancel(termCtx)
 			defer cancel()
-			e.onPromote(promoteCtx, token)
+			onPromote(promoteCtx, token)
 		}()
 	}
 
